@@ -138,10 +138,14 @@ def params_for(name, d, rng, kind, how=None):
             A = Matrix(pd, ld, lambda i, j: rat(rng, -2, 2, 1 if kind == 'int' else 8))
             if abs((A.T * A).det()) >= Rational(1, 4):
                 break
+        # ldim < pdim: half of the parameter sets give the whole pdim x pdim coefficient matrix, as for a square mapping
+        # (the formulas of the class mention x1, x2, x3; a logical coordinate beyond ldim does not exist and counts as
+        # zero, whatever its coefficient: seeded change C16-9)
+        full = ld < pd and rng.random() < 0.5
         for i in range(pd):
             p['c%d' % (i + 1)] = r(-2, 2)
-            for j in range(ld):
-                p['a%d%d' % (i + 1, j + 1)] = A[i, j]
+            for j in range(pd if full else ld):
+                p['a%d%d' % (i + 1, j + 1)] = A[i, j] if j < ld else rat(rng, -2, 2, 1 if kind == 'int' else 8)
     elif name == 'PolarMapping':
         p = {'c1': r(-1, 1), 'c2': r(-1, 1)}
         p['rmin'] = rat(rng, 0.25, 1, 1 if kind == 'int' else 16) if kind != 'int' else Rational(1)
@@ -296,11 +300,14 @@ def user_class(rng, serial, d):
     xs = ['x1', 'x2', 'x3'][:ld]
     names = ['x', 'y', 'z'][:pd]
     par = ['p%d' % k for k in range(rng.randint(0, 2))]
+    # ldim < pdim: half of the classes are written like the 3D catalogue formulas, with logical coordinates beyond ldim
+    # (they do not exist and count as zero: x3*x1**2*sin(2*x2) of TwistedTargetMapping on the sheet x3 = 0; seeded C16-9)
+    tv = ['x1', 'x2', 'x3'][:pd] if ld < pd and rng.random() < 0.5 else xs
 
     def term():
         k = rng.random()
-        v = rng.choice(xs)
-        w = rng.choice(xs)
+        v = rng.choice(tv)
+        w = rng.choice(tv)
         c = rng.choice(par) if par and rng.random() < 0.6 else rng.choice(['0.125', '1/4', '0.1'])
         if k < 0.35:
             return '%s*%s*%s' % (c, v, w)
